@@ -25,6 +25,9 @@ def curated_lists():
     L.append([f32(FIXED), u32(), f32(FIXED)])                                 # TwoFixed
     L.append([f32(FIXED), u32(), szt(), f32(VARYING)])                        # OneFixedOneVarying
     L.append([P(FIXED, TTRK, 8), P(PLAIN, TTRK, 8)])                          # OneFixedUniquePtr
+    # the same typedefs with the suite's real value type (float) instead of its 4-byte stand-in
+    L.append([u32(), P(FIXED, TFLT, 4, 1)])
+    L.append([u32(), szt(), P(VARYING, TFLT, 4, 1)])
     L.append([szt(), P(VARYING, TTRK, 8), P(PLAIN, TTRK, 8)])                 # OneVaryingUniquePtr
     L.append([P(PLAIN, TS8, 1), u32(8)])                                      # PlainAligned
     L.append([szt(), f32(VARYING, 16), u32()])                                # OneVaryingAligned
@@ -68,6 +71,33 @@ def list_key_(L):
     return tuple(p.key() for p in L)
 
 
+FLOAT_SPECIALS = {
+    4: [[0, 0, 0, 0], [0, 0, 0, 128], [0, 0, 128, 63], [0, 0, 128, 191], [0, 0, 0, 64], [0, 0, 128, 127], [0, 0, 128, 255],
+        [1, 0, 0, 0], [1, 0, 0, 128], [0, 0, 0, 63]],
+    8: [[0] * 8, [0] * 7 + [128], [0] * 6 + [240, 63], [0] * 6 + [240, 191], [0] * 7 + [64], [0] * 6 + [240, 127],
+        [0] * 6 + [240, 255], [1] + [0] * 7, [1] + [0] * 6 + [128], [0] * 6 + [224, 63]],
+}
+
+
+def is_nan(o):
+    v = sum(b << (8 * i) for i, b in enumerate(o)) & ((1 << (8 * len(o) - 1)) - 1)
+    return v > {4: 0x7F800000, 8: 0x7FF0000000000000}[len(o)]
+
+
+def rand_float(rng, size, domain):
+    """the object representation of a float / double that is NOT a NaN: +-0, +-1, 2, +-inf,
+    +-denormal, .5 - so that +0 == -0 and sign-magnitude ordering are exercised -, or random
+    bytes with the top exponent bit cleared"""
+    r = rng.random()
+    if r < 0.45:
+        return list(rng.choice(FLOAT_SPECIALS[size][:2 + 2 * domain]))
+    if r < 0.6:
+        return list(rng.choice(FLOAT_SPECIALS[size]))
+    o = [rng.randrange(256) for _ in range(size)]
+    o[-1] &= 0xBF
+    return o
+
+
 def random_param(rng, kind, count_field=False):
     if count_field:
         ty, size = rng.choice(COUNT_TYPES)
@@ -79,6 +109,8 @@ def random_param(rng, kind, count_field=False):
             ty, size = rng.choice([TUINT, TSINT]), rng.choice([2, 4, 8])
         elif r < 0.72:
             ty, size = rng.choice([TU8, TS8, TBYTE]), 1
+        elif r < 0.78:
+            ty, size = TFLT, rng.choice([4, 8])
         else:
             ty, size = rng.choice([TTRK, TTRK, TTRKC]), rng.choice([1, 3, 4, 8, 12, 32])
     r = rng.random()
@@ -226,6 +258,8 @@ class ScriptGen:
     # ---- values
     def rand_obj(self, p):
         rng = self.rng
+        if p.ty == TFLT:
+            return rand_float(rng, p.size, self.domain)
         if rng.random() < 0.7:
             b = rng.randrange(1, 1 + self.domain)
             return [b] * p.size if rng.random() < 0.5 else [rng.randrange(1, 1 + self.domain) for _ in range(p.size)]
@@ -737,6 +771,8 @@ def mutate_tuple(g, L, tup, fixed, rng):
         o = t[k][j]
         b = rng.randrange(len(o))
         o[b] = (o[b] + rng.choice([1, 1, 2, 255, 128])) % 256
+        if p.ty == TFLT and is_nan(o):
+            o[-1] &= 0xBF          # NaN is outside the domain of C13 / C14 (== must be reflexive)
     return t
 
 
